@@ -1,2 +1,3 @@
 import GitAiModel.Base.Text
 import GitAiModel.Model.NoteFormat
+import GitAiModel.Props.C17
